@@ -11,39 +11,58 @@ import (
 // ===== C10: width documents, scraped widths vs the Lean Model (`Widths.impl`, exact) and Spec (`Widths.spec`) ============
 
 type wEdges struct {
-	PadForm string `json:"pad_form"` // "", "1", "2", "3", "4", "sides"   how the padding is written
+	PadForm string `json:"pad_form"` // "", "1", "2", "3", "4", "sides"   how the padding shorthand is written
 	Pad     [4]int `json:"pad"`      // top right bottom left
+	Over    string `json:"over"`     // per-side attributes written next to a shorthand: "", "l", "r", "lr"
+	OverL   int    `json:"over_l"`
+	OverR   int    `json:"over_r"`
 	Border  int    `json:"border"`   // border width on every side (0 = none)
 	BorderL int    `json:"border_l"` // border-left attribute (per-side form; overrides border on the left)
 }
 
 func (e wEdges) padAttr() string {
+	s := ""
 	switch e.PadForm {
 	case "1":
-		return fmt.Sprintf(` padding="%dpx"`, e.Pad[0])
+		s = fmt.Sprintf(` padding="%dpx"`, e.Pad[0])
 	case "2":
-		return fmt.Sprintf(` padding="%dpx %dpx"`, e.Pad[0], e.Pad[1])
+		s = fmt.Sprintf(` padding="%dpx %dpx"`, e.Pad[0], e.Pad[1])
 	case "3":
-		return fmt.Sprintf(` padding="%dpx %dpx %dpx"`, e.Pad[0], e.Pad[1], e.Pad[2])
+		s = fmt.Sprintf(` padding="%dpx %dpx %dpx"`, e.Pad[0], e.Pad[1], e.Pad[2])
 	case "4":
-		return fmt.Sprintf(` padding="%dpx %dpx %dpx %dpx"`, e.Pad[0], e.Pad[1], e.Pad[2], e.Pad[3])
+		s = fmt.Sprintf(` padding="%dpx %dpx %dpx %dpx"`, e.Pad[0], e.Pad[1], e.Pad[2], e.Pad[3])
 	case "sides":
 		return fmt.Sprintf(` padding-left="%dpx" padding-right="%dpx"`, e.Pad[3], e.Pad[1])
 	}
-	return ""
+	if strings.Contains(e.Over, "l") {
+		s += fmt.Sprintf(` padding-left="%dpx"`, e.OverL)
+	}
+	if strings.Contains(e.Over, "r") {
+		s += fmt.Sprintf(` padding-right="%dpx"`, e.OverR)
+	}
+	return s
 }
 
-// effective left/right padding by CSS shorthand rules (defaults given by the component)
+// effective left/right padding by CSS shorthand rules (defaults given by the component); a per-side attribute wins
 func (e wEdges) lr(defL, defR int) (int, int) {
+	l, r := defL, defR
 	switch e.PadForm {
 	case "1":
-		return e.Pad[0], e.Pad[0]
+		l, r = e.Pad[0], e.Pad[0]
 	case "2", "3":
-		return e.Pad[1], e.Pad[1]
-	case "4", "sides":
+		l, r = e.Pad[1], e.Pad[1]
+	case "4":
+		l, r = e.Pad[3], e.Pad[1]
+	case "sides":
 		return e.Pad[3], e.Pad[1]
 	}
-	return defL, defR
+	if strings.Contains(e.Over, "l") {
+		l = e.OverL
+	}
+	if strings.Contains(e.Over, "r") {
+		r = e.OverR
+	}
+	return l, r
 }
 
 func (e wEdges) borderAttr() string {
@@ -66,7 +85,7 @@ func (e wEdges) enc(dl, dr int) string {
 	return fmt.Sprintf("%d,%d,%d,%d", l, r, bl, e.Border)
 }
 
-func (e wEdges) plain() bool { return e.PadForm == "" && e.Border == 0 && e.BorderL == 0 }
+func (e wEdges) plain() bool { return e.PadForm == "" && e.Over == "" && e.Border == 0 && e.BorderL == 0 }
 
 type wWidth struct {
 	Kind string `json:"kind"` // a p x
@@ -377,6 +396,11 @@ func genEdges(r *Rng, allowForms []string, pBorder int) wEdges {
 	for i := range e.Pad {
 		e.Pad[i] = []int{0, 5, 10, 15, 20, 25, 30}[r.Intn(7)]
 	}
+	if e.PadForm != "sides" && r.Bool(1, 4) {
+		e.Over = r.Pick([]string{"l", "r", "lr"})
+		e.OverL = []int{0, 5, 15, 35}[r.Intn(4)]
+		e.OverR = []int{0, 10, 20, 45}[r.Intn(4)]
+	}
 	if r.Intn(10) < pBorder {
 		e.Border = []int{1, 2, 4}[r.Intn(3)]
 	}
@@ -431,6 +455,16 @@ func widthDocs(tier string, seed int64) []*wDoc {
 				docs = append(docs, &wDoc{Body: body, Sec: plain, Items: one(e, leaf)})
 				docs = append(docs, &wDoc{Body: body, Hero: true, Sec: e, Leaves: []wLeaf{{Kind: leaf}}})
 				docs = append(docs, &wDoc{Body: body, Sec: plain, Items: []wItem{{Col: &wCol{W: wWidth{Kind: "a"}, Leaf: wLeaf{Kind: leaf, E: e}}}}})
+			}
+			for _, f := range []string{"", "1", "2", "3", "4"} {
+				for _, ov := range []string{"l", "r", "lr"} {
+					e := wEdges{PadForm: f, Pad: [4]int{10, 20, 30, 40}, Over: ov, OverL: 5, OverR: 15}
+					docs = append(docs, &wDoc{Body: body, Sec: e, Items: one(plain, leaf)})
+					docs = append(docs, &wDoc{Body: body, Wrapper: &e, Sec: plain, Items: one(plain, leaf)})
+					docs = append(docs, &wDoc{Body: body, Sec: plain, Items: one(e, leaf)})
+					docs = append(docs, &wDoc{Body: body, Hero: true, Sec: e, Leaves: []wLeaf{{Kind: leaf}}})
+					docs = append(docs, &wDoc{Body: body, Sec: plain, Items: []wItem{{Col: &wCol{W: wWidth{Kind: "a"}, Leaf: wLeaf{Kind: leaf, E: e}}}}})
+				}
 			}
 			for _, bw := range []int{1, 2, 4} {
 				e := wEdges{Border: bw}
@@ -654,7 +688,7 @@ func checkWidthDoc(res *Result, drv *DriverPool, d *wDoc, html string, sample bo
 }
 
 func runC10(res *Result, tier string, seed int64, replay string) {
-	res.Rule = "width documents: body width {600,500,480,640,700} × optional wrapper × (section with 1–4 children: columns or groups of 1–3 columns; automatic / integer and fractional percentages / pixel widths | hero with images and dividers), every box with padding written in every form (absent, 1/2/3/4-value shorthand, per-side attributes) and borders (all sides, border-left override); images and dividers without explicit width, with their own paddings; first one feature at a time from a plain base (exhaustive list), then seeded combinations. Widths are scraped from the real output with the Lean lexer (wrapper / section max-width, Outlook td width per column and group, Outlook cells of columns inside groups, img width, divider Outlook table width) and compared (1) with the Model `Widths.impl` (driver `width`) exactly — the correspondence — and (2) with the Spec `Widths.spec` (driver `widthspec`, exact rationals): |Δ| < 1 px per rounding step, plus the sibling-sum clause. Non-trivial = padding/border/wrapper/hero/group somewhere or ≥2 columns; distinct by source"
+	res.Rule = "width documents: body width {600,500,480,640,700} × optional wrapper × (section with 1–4 children: columns or groups of 1–3 columns; automatic / integer and fractional percentages / pixel widths | hero with images and dividers), every box with padding written in every form (absent, 1/2/3/4-value shorthand, per-side attributes alone and overriding a shorthand) and borders (all sides, border-left override); images and dividers without explicit width, with their own paddings; first one feature at a time from a plain base (exhaustive list), then seeded combinations. Widths are scraped from the real output with the Lean lexer (wrapper / section max-width, Outlook td width per column and group, Outlook cells of columns inside groups, img width, divider Outlook table width) and compared (1) with the Model `Widths.impl` (driver `width`) exactly — the correspondence — and (2) with the Spec `Widths.spec` (driver `widthspec`, exact rationals): |Δ| < 1 px per rounding step, plus the sibling-sum clause. Non-trivial = padding/border/wrapper/hero/group somewhere or ≥2 columns; distinct by source"
 	drv, err := startDriverPool(8)
 	if err != nil {
 		res.Disagree(Violation{Sig: "driver-missing", What: err.Error()})
